@@ -205,7 +205,7 @@ auto a_includes(Case const& c) -> std::string
     std::string e;
     {
         Scope sc;
-        e = bs(c.cmp == 0 ? etl::includes(at<K>(A, 0), at<K>(A, len(c)), at<K>(B, 0), at<K>(B, lenb(c))) : etl::includes(at<K>(A, 0), at<K>(A, len(c)), at<K>(B, 0), at<K>(B, lenb(c)), Cmp{c.cmp}));
+        e = bs(c.cmp == 0 ? etl::includes(at<K>(A, 0), at<K>(A, len(c)), at2<K>(B, 0), at2<K>(B, lenb(c))) : etl::includes(at<K>(A, 0), at<K>(A, len(c)), at2<K>(B, 0), at2<K>(B, lenb(c)), Cmp{c.cmp}));
     }
     return verdict(e, s);
 }
@@ -217,20 +217,25 @@ auto table() -> std::vector<Entry> const&
     static std::vector<Entry> const t = {
         C06_REG(a_minmax, "min_max_minmax", D_CMP | D_SMALL, KP),
         C06_REG(a_clamp, "clamp", D_CMP | D_SMALL, KP),
-        C06_REG(a_elements, "min_max_minmax_element", D_CMP, KP),
-        C06_REG(a_elements, "min_max_minmax_element", D_CMP, KF),
-        C06_REG(a_is_sorted, "is_sorted_is_sorted_until", D_CMP, KP),
-        C06_REG(a_is_sorted, "is_sorted_is_sorted_until", D_CMP, KF),
-        C06_REG(a_is_partitioned, "is_partitioned", D_PRED, KP),
-        C06_REG(a_is_partitioned, "is_partitioned", D_PRED, KI),
-        C06_REG(a_partition_point, "partition_point", D_PRED | D_APART, KP),
-        C06_REG(a_partition_point, "partition_point", D_PRED | D_APART, KF),
-        C06_REG(a_bounds, "lower_upper_bound_equal_range_binary_search", D_CMP | D_ASORT | D_VAL, KP),
-        C06_REG(a_bounds, "lower_upper_bound_equal_range_binary_search", D_CMP | D_ASORT | D_VAL, KF),
-        C06_REG(a_bounds_het, "bounds_heterogeneous_value", D_CMP | D_ASORT | D_VAL, KP),
-        C06_REG(a_bounds_het, "bounds_heterogeneous_value", D_CMP | D_ASORT | D_VAL, KF),
-        C06_REG(a_includes, "includes", D_CMP | D_ASORT | D_BSORT | D_B, KP),
-        C06_REG(a_includes, "includes", D_CMP | D_ASORT | D_BSORT | D_B, KI),
+        C06_REG(a_elements, "min_max_minmax_element", D_CMP | D_LONG, KP),
+        C06_REG(a_elements, "min_max_minmax_element", D_CMP | D_LONG, KF),
+        C06_REG(a_is_sorted, "is_sorted_is_sorted_until", D_CMP | D_LONG, KP),
+        C06_REG(a_is_sorted, "is_sorted_is_sorted_until", D_CMP | D_LONG, KF),
+        C06_REG(a_is_partitioned, "is_partitioned", D_PRED | D_LONG, KP),
+        C06_REG(a_is_partitioned, "is_partitioned", D_PRED | D_LONG, KI),
+        C06_REG(a_partition_point, "partition_point", D_PRED | D_APART | D_LONG, KP),
+        C06_REG(a_partition_point, "partition_point", D_PRED | D_APART | D_LONG, KF),
+        C06_REG(a_bounds, "lower_upper_bound_equal_range_binary_search", D_CMP | D_ASORT | D_VAL | D_LONG, KP),
+        C06_REG(a_bounds, "lower_upper_bound_equal_range_binary_search", D_CMP | D_ASORT | D_VAL | D_LONG, KF),
+        C06_REG(a_bounds_het, "bounds_heterogeneous_value", D_CMP | D_ASORT | D_VAL | D_LONG, KP),
+        C06_REG(a_bounds_het, "bounds_heterogeneous_value", D_CMP | D_ASORT | D_VAL | D_LONG, KF),
+        C06_REG(a_includes, "includes", D_CMP | D_ASORT | D_BSORT | D_B | D_LONG, KP),
+        C06_REG(a_includes, "includes", D_CMP | D_ASORT | D_BSORT | D_B | D_LONG, KI),
+        C06_REG(a_includes, "includes", D_CMP | D_ASORT | D_BSORT | D_B | D_LONG, Kpi),
+        C06_REG(a_includes, "includes", D_CMP | D_ASORT | D_BSORT | D_B | D_LONG, Kip),
+        C06_REG(a_includes, "includes", D_CMP | D_ASORT | D_BSORT | D_B | D_LONG, Kfi),
+        C06_REG(a_includes, "includes", D_CMP | D_ASORT | D_BSORT | D_B | D_LONG, Kpf),
+        C06_REG(a_includes, "includes", D_CMP | D_ASORT | D_BSORT | D_B | D_LONG, Kbp),
     };
     return t;
 }
